@@ -144,7 +144,7 @@ PROPS = {
                 dict(driver='fuzz_decode', flavour='fuzz', runner='fuzz', tiers=('thorough',), runs=dict(thorough=8000000), max_len=4096)],
         rule=('cases = deterministic canonical-frame mutations + TECMP sweep + seeded random histories of 1..40 frames; every decode call is one evaluation. distinct_nontrivial = distinct (frame family + mutation kinds, packets accepted (0,1,2,3+)) pairs and (family, mutated field) pairs.'),
         assumptions=COMMON_ASSUME,
-        floors=dict(quick={'distinct_nontrivial': 3000, 'inputs_guard_paged_readonly': 50000, 'ownership_rechecks': 20000, 'tecmp_message_types_swept': 256, 'reassembly_totals_beyond_65535': 24, 'feat:c02_family_truncated': 49, 'feat:c02_family_field_mutated': 49},
+        floors=dict(quick={'distinct_nontrivial': 3000, 'inputs_guard_paged_readonly': 50000, 'ownership_rechecks': 20000, 'tecmp_message_types_swept': 256, 'reassembly_totals_beyond_65535': 24, 'typed_boundary_cases': 112, 'feat:c02_family_truncated': 49, 'feat:c02_family_field_mutated': 49},
                     thorough={'distinct_nontrivial': 5000, 'tecmp_message_types_swept': 256}),
     ),
     'C03': dict(
